@@ -26,6 +26,7 @@ StrUpTo(alpha, n) == UNION {[1..k -> alpha] : k \in 0..n}
 ValAlpha  == {97, 34, 92, 59, 44, 61, 32, 127, 233, 256, 49, 10}      \* a " \ ; , = SP DEL e-acute U+0100 1 LF
 AttrAlpha == {97, 44, 61, 34, 59, 32, 233, 256, 47}                   \* a , = " ; SP e-acute U+0100 /
 NamesC  == {<<107>>, <<107, 50>>, <<112, 97, 116, 104>>, <<107, 59>>, <<>>}   \* k  k2  path(reserved)  k;  empty
+NamesQ  == {<<107, 50>>, <<112, 97, 116, 104>>, <<107, 59>>}                    \* k2  path  k;
 NamesS  == {<<107>>, <<107, 50>>}
 Values1 == StrUpTo(ValAlpha, 1)
 Values2 == StrUpTo(ValAlpha, 2)
@@ -94,7 +95,9 @@ AttrsOf(line) ==
     {one(chunks[i]) : i \in 2..Len(chunks)}
 AttrCount(line) == Len(Split(line, SEMI)) - 1
 
-(* requested attributes: record of texts / flags; <<>> = not requested *)
+(* requested attributes: record of texts / flags; <<>> = not requested; expdays = NoDays: expires_days not
+   passed; maxage0: max_age=0 was passed - whether that yields "Max-Age=0" or nothing is left open (disputed) *)
+NoDays == 9
 A(k, v) == [k |-> k, v |-> v]
 ExpAttrs(a) ==
     (IF Len(a.domain) > 0 THEN {A(<<100, 111, 109, 97, 105, 110>>, a.domain)} ELSE {})
@@ -103,15 +106,19 @@ ExpAttrs(a) ==
     \cup (IF a.maxage > 0 THEN {A(<<109, 97, 120, 45, 97, 103, 101>>, Dec(a.maxage))} ELSE {})
     \cup (IF a.httponly THEN {A(<<104, 116, 116, 112, 111, 110, 108, 121>>, <<>>)} ELSE {})
     \cup (IF a.secure THEN {A(<<115, 101, 99, 117, 114, 101>>, <<>>)} ELSE {})
-    \cup (IF a.expires THEN {A(EXPIRES, <<>>)} ELSE {})
+    \cup (IF a.expires \/ a.expdays # NoDays THEN {A(EXPIRES, <<>>)} ELSE {})     \* expires_days = 0 means "expire now"
+MAXAGE0 == A(<<109, 97, 120, 45, 97, 103, 101>>, <<48>>)
 
 (* one observed Set-Cookie value is a faithful emission of jar entry e *)
 Latin1(s) == \A i \in 1..Len(s) : s[i] < 256
 Acceptable(e, line) ==
     /\ Latin1(line)
     /\ ParseCookie(NVPart(line)) = <<[k |-> e.name, v |-> e.value]>>
-    /\ AttrsOf(line) = ExpAttrs(e.attrs)
-    /\ AttrCount(line) = Cardinality(ExpAttrs(e.attrs))
+    /\ \/ /\ AttrsOf(line) = ExpAttrs(e.attrs)
+          /\ AttrCount(line) = Cardinality(ExpAttrs(e.attrs))
+       \/ /\ e.attrs.maxage0 /\ e.attrs.maxage = 0
+          /\ AttrsOf(line) = ExpAttrs(e.attrs) \cup {MAXAGE0}
+          /\ AttrCount(line) = Cardinality(ExpAttrs(e.attrs)) + 1
 (* the observed lines are exactly the jar: a bijection of faithful emissions *)
 Faithful(jar, lines) ==
     /\ Len(lines) = Len(jar)
@@ -130,7 +137,7 @@ Render(e) ==
         kv(k, v) == sep \o TXT(k) \o <<EQ>> \o v IN
     e.name \o <<EQ>> \o Quote(e.value)
     \o (IF Len(a.domain) > 0 THEN kv(1, a.domain) ELSE <<>>)
-    \o (IF a.expires THEN kv(2, DATE) ELSE <<>>)
+    \o (IF a.expires \/ a.expdays # NoDays THEN kv(2, DATE) ELSE <<>>)
     \o (IF a.httponly THEN sep \o TXT(3) ELSE <<>>)
     \o (IF a.maxage > 0 THEN kv(4, Dec(a.maxage)) ELSE <<>>)
     \o (IF Len(a.path) > 0 THEN kv(5, a.path) ELSE <<>>)
@@ -177,12 +184,14 @@ Flush ==
     /\ step' = [act |-> "flush", args |-> <<>>, raised |-> FALSE]
 
 PlainAttrs == [domain |-> <<>>, path |-> <<47>>, samesite |-> <<>>, maxage |-> 0, httponly |-> FALSE, secure |-> FALSE,
-               expires |-> FALSE]
+               expires |-> FALSE, expdays |-> NoDays, maxage0 |-> FALSE]
 (* one attribute varied at a time, plus all flag combinations *)
 AttrChoices ==
     {[PlainAttrs EXCEPT !.domain = d] : d \in AttrSet}
     \cup {[PlainAttrs EXCEPT !.path = p] : p \in AttrSet \cup {<<>>}}
     \cup {[PlainAttrs EXCEPT !.samesite = x] : x \in AttrSet \cup {<<76, 97, 120>>}}
+    \cup {[PlainAttrs EXCEPT !.expdays = d, !.expires = x] : d \in {0, 1}, x \in BOOLEAN}
+    \cup {[PlainAttrs EXCEPT !.maxage0 = TRUE]}
     \cup (IF Flags THEN {[PlainAttrs EXCEPT !.maxage = m, !.httponly = h, !.secure = c, !.expires = x, !.domain = d] :
                            m \in {0, 5}, h \in BOOLEAN, c \in BOOLEAN, x \in BOOLEAN, d \in {<<>>, <<97, 46, 98>>}}
            ELSE {[PlainAttrs EXCEPT !.httponly = TRUE, !.maxage = 5]})
